@@ -145,3 +145,31 @@ def variants_constructed(F, fns, adt):
             if rv and rv["k"] == "agg" and rv.get("ak") == "adt" and rv["adt"] == adt:
                 out.setdefault(rv["var"], []).append((p, bi))
     return out
+
+
+def root_param(body, l):
+    """the parameter a reference local ultimately stands for, following plain copies and re-borrows
+    (`x = move y`, `x = &(*y)`, `x = &mut (*y)`); None if it is not rooted in a parameter.  Needed on flattened bodies,
+    where a spliced-in helper reads the caller's `self` through its own copy of the argument."""
+    for _ in range(12):
+        if 1 <= l <= body.argc:
+            return l
+        d = body.single_def(l)
+        if not (d and d[2] == "assign"):
+            return None
+        rv = d[3]
+        if rv["k"] in ("use", "cast"):
+            p = op_place(rv["a"])
+        elif rv["k"] in ("ref", "raw"):
+            p = rv["pl"]
+        else:
+            return None
+        if p is None:
+            return None
+        if isinstance(p, int):
+            l = p
+        elif p["p"] == ["*"]:
+            l = p["l"]
+        else:
+            return None
+    return None
